@@ -15,6 +15,13 @@ from pyvc.registry import harness
 PREFIXES = [b"", b"\x10", b"\x10\x01", b"\x50"]
 
 
+class GhostParameter:
+
+    def __init__(self, name):
+        self.short_name = name
+        self.is_settable = True
+
+
 class GhostCoding:
 
     def __init__(self, name, prefix, echo_request_prefix=False, outcomes=("value", "error", "mismatch"),
@@ -26,6 +33,7 @@ class GhostCoding:
         self.prefix = prefix
         self.echo = echo_request_prefix
         self.outcome = None
+        self.parameters = [GhostParameter("decoded_by")]
 
     def coded_const_prefix(self, request_prefix=b""):
         if self.echo:
